@@ -117,6 +117,32 @@ pub fn tokens_req(id: i64, uri: &str) -> Value {
     json!({"id":id,"method":"textDocument/semanticTokens/full","params":{"textDocument":{"uri":uri}}})
 }
 
+/// Well-formed client notifications that are no edit of any document (LSP 3.17): after any of them every
+/// document the client has open still has the text the client last sent, so diagnostics and tokens are unchanged.
+/// (textDocument/didClose is not in this menu: what a server keeps of a closed document is its own choice.)
+pub fn neutral_notifications(uri: &str, other: &str) -> Vec<(&'static str, Value)> {
+    vec![
+        ("textDocument/didSave", json!({"method":"textDocument/didSave","params":{"textDocument":{"uri":uri}}})),
+        ("textDocument/didSave(with text)", json!({"method":"textDocument/didSave","params":{"textDocument":{"uri":uri},"text":"PROGRAM saved END_PROGRAM"}})),
+        ("textDocument/willSave", json!({"method":"textDocument/willSave","params":{"textDocument":{"uri":uri},"reason":1}})),
+        ("workspace/didChangeWorkspaceFolders(added)", json!({"method":"workspace/didChangeWorkspaceFolders","params":{"event":{"added":[{"uri":"file:///w","name":"w"}],"removed":[]}}})),
+        ("workspace/didChangeWorkspaceFolders(added other)", json!({"method":"workspace/didChangeWorkspaceFolders","params":{"event":{"added":[{"uri":"file:///tmp","name":"tmp"}],"removed":[]}}})),
+        ("workspace/didChangeWorkspaceFolders(removed)", json!({"method":"workspace/didChangeWorkspaceFolders","params":{"event":{"added":[],"removed":[{"uri":"file:///w","name":"w"}]}}})),
+        ("workspace/didChangeWatchedFiles(changed)", json!({"method":"workspace/didChangeWatchedFiles","params":{"changes":[{"uri":uri,"type":2}]}})),
+        ("workspace/didChangeWatchedFiles(deleted)", json!({"method":"workspace/didChangeWatchedFiles","params":{"changes":[{"uri":uri,"type":3},{"uri":other,"type":1}]}})),
+        ("workspace/didChangeConfiguration", json!({"method":"workspace/didChangeConfiguration","params":{"settings":{"ironplc":{"x":1}}}})),
+        ("workspace/didCreateFiles", json!({"method":"workspace/didCreateFiles","params":{"files":[{"uri":other}]}})),
+        ("workspace/didRenameFiles", json!({"method":"workspace/didRenameFiles","params":{"files":[{"oldUri":uri,"newUri":other}]}})),
+        ("workspace/didDeleteFiles", json!({"method":"workspace/didDeleteFiles","params":{"files":[{"uri":uri}]}})),
+        ("$/setTrace", json!({"method":"$/setTrace","params":{"value":"verbose"}})),
+        ("$/cancelRequest", json!({"method":"$/cancelRequest","params":{"id":1}})),
+        ("$/progress", json!({"method":"$/progress","params":{"token":"t","value":{"kind":"begin","title":"x"}}})),
+        ("window/workDoneProgress/cancel", json!({"method":"window/workDoneProgress/cancel","params":{"token":"t"}})),
+        ("initialized(again)", json!({"method":"initialized","params":{}})),
+        ("notebookDocument/didOpen", json!({"method":"notebookDocument/didOpen","params":{"notebookDocument":{"uri":"file:///w/n.ipynb","notebookType":"x","version":1,"cells":[]},"cellTextDocuments":[]}})),
+    ]
+}
+
 fn to_message(v: &Value) -> Message {
     let mut v = v.clone();
     if v.get("method").is_some() && v.get("params").is_none() {
